@@ -11,9 +11,11 @@
              5 g        released() of goroutine g, called from outside the mutex (synchronous path)
              6 k        section of the k-th parked asynchronous released()
              7 g enter  resolve goroutine g leaves its first gate (enter: it called the resolver; used when both cases were ready)
-             8 g rel e  the resolver call on goroutine g returns value g+1 (7 if constValue), a release function iff rel, error e (0 nil, >= 2)
+             8 g rel e [z]  the resolver call on goroutine g returns value g+1 (7 if constValue), a release function iff rel, error e (0 nil, >= 2);
+                        z = 1 (only with e <> 0): the error comes with the EMPTY value 0 (`return zero, rel, err`); z absent = 0
              9 g        the store section of goroutine g
-             10 k       start a consumer: 0 Wait, 1 ResolveWithReleased, 2 Access
+             10 k       start a consumer: 0 Wait, 1 WaitWithReleased + the six lines of ResolveWithReleased replicated by the harness, 2 Access,
+                        3 Resolve (behaves as Wait; the caller gets ref.Release instead of the reference), 4 ResolveWithReleased itself (behaves as 1)
              11 c       cancel consumer c's context
              12 c       the goroutine spawned by consumer c's WaitWithReleased callback: removeRef section, then released()
    Observation after every event:
@@ -83,11 +85,26 @@ Fixpoint nth_parked (l : list async) (k idx : nat) : option nat :=
   | x :: r => if parked x then (match k with O => Some idx | S k' => nth_parked r k' (S idx) end) else nth_parked r k (S idx)
   end.
 
+(* resolver returns the codec accepts: never context.Canceled (1); the empty value only together with an error *)
+Definition res_ok (er z : N) : bool := negb (N.eqb er 1) && (N.eqb z 0 || (N.eqb z 1 && negb (N.eqb er 0))).
+Definition res_val (const : bool) (g z : N) : nat := if N.eqb z 0 then (if const then 7%nat else S (n2n g)) else 0%nat.
+(* consumer kinds: Resolve is Wait, ResolveWithReleased is WaitWithReleased + the harness's replica *)
+Definition ckind_norm (k : N) : N := match k with 3 => 0 | 4 => 1 | _ => k end.
+Definition ckind_of (k : N) : ckind := match ckind_norm k with 0 => CKWait | 1 => CKWwr | _ => CKAccess end.
+
 Definition hstep (h : hst) (e : list N) : option (hst * list N) :=
   let s := hs h in
   let fin (s' : st) (rets : list N) :=
     let s'' := settle s' in
     Some ({| hs := s''; hrel := length (rellog s''); hconst := hconst h |}, obs_of rets s'' (hrel h)) in
+  let ret8 (g hr er z : N) :=
+    match nth_error (gs s) (n2n g) with
+    | Some x => match gpcv x with
+                | GInRes => if res_ok er z then fin (resolver_return s (n2n g) (res_val (hconst h) g z) (nz hr) (n2n er)) [] else None
+                | _ => None
+                end
+    | None => None
+    end in
   match e with
   | [1; c] => let '(s', u) := set_context s (n2n c) in fin s' [nb u]
   | [2; k] => if N.leb k 2 then let s' := add_ref repaired s (kind_of (n2n k)) in fin s' [nb (panicked s')] else None
@@ -114,20 +131,14 @@ Definition hstep (h : hst) (e : list N) : option (hst * list N) :=
     | Some x => match gpcv x with GGate0 => fin (proceed repaired s (n2n g) (nz en)) [] | _ => None end
     | None => None
     end
-  | [8; g; hr; er] =>
-    match nth_error (gs s) (n2n g) with
-    | Some x => match gpcv x with
-                | GInRes => if N.eqb er 1 then None else fin (resolver_return s (n2n g) (if hconst h then 7%nat else S (n2n g)) (nz hr) (n2n er)) []
-                | _ => None
-                end
-    | None => None
-    end
+  | [8; g; hr; er] => ret8 g hr er 0
+  | [8; g; hr; er; z] => ret8 g hr er z
   | [9; g] =>
     match nth_error (gs s) (n2n g) with
     | Some x => match gpcv x with GStore _ _ _ => fin (store s (n2n g)) [] | _ => None end
     | None => None
     end
-  | [10; k] => if N.leb k 2 then fin (start_consumer repaired s (match k with 0 => CKWait | 1 => CKWwr | _ => CKAccess end)) [] else None
+  | [10; k] => if N.leb k 4 then fin (start_consumer repaired s (ckind_of k)) [] else None
   | [14; c] => if N.leb 1 c && N.leb c 3 then fin (cancel_root s (n2n c)) [] else None
   | [13; c; res] =>
     match nth_error (conss s) (n2n c) with
@@ -243,16 +254,17 @@ Record mst := {
   m_ainv : list bool;               (* ... the value of the running invocation was invalidated since the invocation started *)
   m_adec : list (option (N * bool));(* per Access consumer: it decided to return: expected code, decided by a callback result *)
   m_rootc : list N;                 (* root contexts cancelled by their owner *)
+  m_empty : list N;                 (* goroutines whose resolver call returned an error together with the empty value *)
 }.
 
 Definition minit (cfg : list N) : option mst :=
   match cfg with
   | [k] => Some {| m_keep := nz k; m_ctx := 0; m_in := []; m_kind := []; m_raref := []; m_cref := []; m_out := []; m_called := [];
                    m_cur := None; m_ng := 0; m_inval := []; m_ckind := []; m_cret := []; m_const := false; m_gs := [];
-                   m_ccanc := []; m_acb := []; m_acanc := []; m_ainv := []; m_adec := []; m_rootc := [] |}
+                   m_ccanc := []; m_acb := []; m_acanc := []; m_ainv := []; m_adec := []; m_rootc := []; m_empty := [] |}
   | [k; c] => Some {| m_keep := nz k; m_ctx := 0; m_in := []; m_kind := []; m_raref := []; m_cref := []; m_out := []; m_called := [];
                       m_cur := None; m_ng := 0; m_inval := []; m_ckind := []; m_cret := []; m_const := nz c; m_gs := [];
-                      m_ccanc := []; m_acb := []; m_acanc := []; m_ainv := []; m_adec := []; m_rootc := [] |}
+                      m_ccanc := []; m_acb := []; m_acanc := []; m_ainv := []; m_adec := []; m_rootc := []; m_empty := [] |}
   | _ => None
   end.
 
@@ -287,13 +299,14 @@ Definition mon1 (m : mst) (e : list N) (p : pobs) : mst * list (nat * nat) :=
                | _ => m_kind m
                end in
   let cref' := match e with [10; _] => (m_cref m ++ [nref_before])%list | _ => m_cref m end in
-  let ckind' := match e with [10; k] => (m_ckind m ++ [k])%list | _ => m_ckind m end in
+  let ckind' := match e with [10; k] => (m_ckind m ++ [ckind_norm k])%list | _ => m_ckind m end in
   let ncons := length (po_cons p) in
   let cret' := map (fun x => let '(code, _, _, _, _, _) := x in N.eqb code 3) (po_cons p) in
   let raref' := map (fun x => n2n (snd x)) (po_relacts p) in
   let nin := cntb in1 in
   (* ---- release functions ---- *)
-  let out1 := match e with [8; g; hr; _] => if nz hr then (m_out m ++ [g])%list else m_out m | _ => m_out m end in
+  let out1 := match e with [8; g; hr; _] | [8; g; hr; _; _] => if nz hr then (m_out m ++ [g])%list else m_out m | _ => m_out m end in
+  let empty' := match e with [8; g; _; _; z] => if nz z then (m_empty m ++ [g])%list else m_empty m | _ => m_empty m end in
   let newcalls := map (fun x => let '(id, _, _) := x in id) (po_rels p) in
   let called' := (m_called m ++ newcalls)%list in
   let out' := filter (fun g => negb (mem g newcalls)) out1 in
@@ -336,7 +349,7 @@ Definition mon1 (m : mst) (e : list N) (p : pobs) : mst * list (nat * nat) :=
     match cur' with
     | Some (g, e0) =>
       forallb (fun t => let '(inn, k, (lc, v, er)) := t in
-                 negb inn || N.eqb k 0 || (N.eqb lc 2 && N.eqb v (g + 1) && N.eqb er e0))
+                 negb inn || N.eqb k 0 || (N.eqb lc 2 && N.eqb v (if mem g empty' then 0 else g + 1) && N.eqb er e0))
               (zip3 in1 kind' (po_refs p))
     | None => false
     end in
@@ -354,7 +367,7 @@ Definition mon1 (m : mst) (e : list N) (p : pobs) : mst * list (nat * nat) :=
                       if inn && N.eqb code 3 && nz h then Some v else None)
                    (combine (map (fun r => nth r in1 false) cref') (po_cons p)) in
   let f10_1 := fails 10 1 (match e with
-                           | [4; _] | [12; _] | [9; _] | [2; _] | [3; _] | [7; _; _] | [8; _; _; _] | [10; _] | [11; _] =>
+                           | [4; _] | [12; _] | [9; _] | [2; _] | [3; _] | [7; _; _] | [8; _; _; _] | [8; _; _; _; _] | [10; _] | [11; _] =>
                              forallb (fun id => negb (existsb (fun hv => match hv with Some v => N.eqb v (id + 1) | None => false end) holds)) newcalls
                            | _ => true
                            end) in
@@ -430,7 +443,7 @@ Definition mon1 (m : mst) (e : list N) (p : pobs) : mst * list (nat * nat) :=
       m_acb := map (fun j => let '(a, _, _, _, _) := j in a) judged;
       m_acanc := map (fun j => let '(_, a, _, _, _) := j in a) judged;
       m_ainv := map (fun j => let '(_, _, a, _, _) := j in a) judged;
-      m_adec := map (fun j => let '(_, _, _, a, _) := j in a) judged; m_rootc := rootc' |},
+      m_adec := map (fun j => let '(_, _, _, a, _) := j in a) judged; m_rootc := rootc'; m_empty := empty' |},
    ((if m_const m then [] else all) ++ facc)%list).
 
 Definition mon (m : option mst) (e o : list N) : option mst * list (nat * nat) :=
